@@ -11,7 +11,9 @@ const TAG: u64 = 0xC08;
 /// recurrences (d, s updated from p, A p) drift with the size of its *direction* vectors, not of the
 /// iterates: worst 58 units, always at tol < 1e-11 next to its attainable-accuracy floor. A wrong
 /// recurrence or an early Ok misses tol by a factor, i.e. by 1e3..1e12 units for tol >= 1e-10.
-pub fn drift_units(sv: Solver) -> f64 { if sv == Solver::Qmr { 16384.0 } else { 256.0 } }
+/// (QMR: since fix ab4c52c success is reported on the residual recomputed from x, so only the rounding of that one
+/// evaluation is left - 64 units; before the fix its coupled recurrences needed 16384)
+pub fn drift_units(sv: Solver) -> f64 { if sv == Solver::Qmr { 64.0 } else { 256.0 } }
 
 #[derive(Clone, Copy, Debug, PartialEq)]
 pub enum Solver { Cg, Bicg1, Bicg2, Bicgstab, Qmr }
